@@ -723,6 +723,10 @@ class CxxParser:
 
                         mods.validate(var_ok=False, meth_ok=False, msg="")
                         dtype = self._parse_cv_ptr_or_fn(parsed_type, nonptr_fn=True)
+                        if not isinstance(dtype, FunctionType):
+                            atok = self.lex.token_if("[")
+                            if atok:
+                                dtype = self._parse_array_type(atok, dtype)
                         self._next_token_must_be(PhonyEnding.type)
                     except CxxParseError:
                         dtype = None
